@@ -184,18 +184,19 @@ def five_slot_rule(cfg, R, lib, T, rid='A5'):
 # A1-A4: data preconditions
 # ---------------------------------------------------------------------------------------------------------
 
-def data_rules(cfg, R, lib, T):
-    R.rule('A1', 'every basic era UNTIL is a whole year with suffix w; eras strictly increasing; last era is open', floor=280)
-    R.rule('A2', 'at most one rule per month among the rules active in any year startYear-1..untilYear', floor=60)
-    R.rule('A3', 'no rule transition falls on January 1', floor=360)
-    R.rule('A4', 'every rule letter is a single printable character', floor=360)
+def data_rules(cfg, R, lib, T, ids=('A1', 'A2', 'A3', 'A4'), floors=(280, 60, 360, 360), db='zonedb', what='every basic'):
+    A1, A2, A3, A4 = ids
+    R.rule(A1, '%s era UNTIL is a whole year with suffix w; eras strictly increasing; last era is open' % what, floor=floors[0])
+    R.rule(A2, '%s policy: at most one rule per month among the rules active in any year startYear-1..untilYear' % what, floor=floors[1])
+    R.rule(A3, '%s policy: no rule transition falls on January 1' % what, floor=floors[2])
+    R.rule(A4, '%s policy: every rule letter is a single printable character' % what, floor=floors[3])
     sufw = lib.const('ace_time::basic::ZoneContext::kSuffixW')
     start, until = T.context['startYear'], T.context['untilYear']
     for arr, entries in T.eras.items():
         prev = None
         for e in entries:
-            c = 'zonedb::%s[%d]' % (arr, e.index)
-            R.instance('A1', c, e.loc)
+            c = '%s::%s[%d]' % (db, arr, e.index)
+            R.instance(A1, c, e.loc)
             bad = []
             if not (e['untilMonth'] == 1 and e['untilDay'] == 1 and e['untilTimeCode'] == 0 and (e['untilTimeModifier'] & 0x0f) == 0):
                 bad.append('UNTIL is not a whole year')
@@ -207,11 +208,11 @@ def data_rules(cfg, R, lib, T):
             if e.index == len(entries) - 1 and e['untilYearTiny'] != 127:
                 bad.append('last era is not open-ended (untilYearTiny != 127)')
             if bad:
-                R.violation('A1', c, e.loc, '; '.join(bad))
+                R.violation(A1, c, e.loc, '; '.join(bad))
     for pname in T.policies:
         rules = T.policy_rules(pname)
-        c = 'zonedb::%s' % pname
-        R.instance('A2', c, T.policies[pname].loc)
+        c = '%s::%s' % (db, pname)
+        R.instance(A2, c, T.policies[pname].loc)
         for y in range(start - 1, until + 1):
             months = {}
             for r in rules:
@@ -219,19 +220,19 @@ def data_rules(cfg, R, lib, T):
                     months.setdefault(r['inMonth'], []).append(r.index)
             dup = {m: v for m, v in months.items() if len(v) > 1}
             if dup:
-                R.violation('A2', c, T.policies[pname].loc, 'year %d: rules %s share a month' % (y, dup))
+                R.violation(A2, c, T.policies[pname].loc, 'year %d: rules %s share a month' % (y, dup))
                 break
         letters = T.policy_letters(pname)
         for r in rules:
-            rc = 'zonedb::%s[%d]' % (r.owner, r.index)
-            R.instance('A4', rc, r.loc)
+            rc = '%s::%s[%d]' % (db, r.owner, r.index)
+            R.instance(A4, rc, r.loc)
             if r['letter'] < 32 or letters:
-                R.violation('A4', rc, r.loc, 'letter cell %d is not a single printable character (or the policy has a letters array)' % r['letter'])
-            R.instance('A3', rc, r.loc)
+                R.violation(A4, rc, r.loc, 'letter cell %d is not a single printable character (or the policy has a letters array)' % r['letter'])
+            R.instance(A3, rc, r.loc)
             if r['fromYearTiny'] <= -127 or r['toYearTiny'] <= -127:
                 continue   # anchor rule (MIN year): it is the documented Jan-1 placeholder
             if r['inMonth'] == 1 and r['onDayOfMonth'] == 1:
-                R.violation('A3', rc, r.loc, 'rule is a transition on January 1 (inMonth=1, onDayOfMonth=1)')
+                R.violation(A3, rc, r.loc, 'rule is a transition on January 1 (inMonth=1, onDayOfMonth=1)')
                 continue
             lo = max(r['fromYearTiny'] + 2000, start - 1)
             hi = min(r['toYearTiny'] + 2000, until)
@@ -241,7 +242,7 @@ def data_rules(cfg, R, lib, T):
                 except ValueError:
                     continue
                 if (m, d) == (1, 1):
-                    R.violation('A3', rc, r.loc, 'rule resolves to January 1 in %d' % y)
+                    R.violation(A3, rc, r.loc, 'rule resolves to January 1 in %d' % y)
                     break
 
 
@@ -249,62 +250,31 @@ def data_rules(cfg, R, lib, T):
 # B: transformer applies the basic-only filters on the basic path
 # ---------------------------------------------------------------------------------------------------------
 
-BASIC_FILTERS = ['_remove_zone_until_year_only_false', '_remove_rules_multiple_transitions_in_month',
-                 '_remove_rules_with_border_transitions', '_remove_rules_long_dst_letter']
-
-
-def transformer_rules(cfg, R):
-    R.rule('B', 'on the scope==basic path of Transformer.transform() each basic-only filter is called and its result flows on', floor=4)
-    m = py.load(cfg, 'tools/tzdb/transformer.py')
-    f = m.fn('Transformer.transform')
-    R.analysed['python_modules'] = [m.rel]
-    found = {}
-    for n in ast.walk(f.node):
-        if isinstance(n, ast.If):
-            t = n.test
-            is_basic = (isinstance(t, ast.Compare) and len(t.ops) == 1 and isinstance(t.ops[0], ast.Eq)
-                        and ast.unparse(t.left) == 'self.scope' and isinstance(t.comparators[0], ast.Constant)
-                        and t.comparators[0].value == 'basic')
-            for s in n.body:
-                if isinstance(s, ast.Assign) and isinstance(s.value, ast.Call) and isinstance(s.value.func, ast.Attribute) \
-                        and ast.unparse(s.value.func.value) == 'self':
-                    name = s.value.func.attr
-                    if name in BASIC_FILTERS:
-                        tgt = ast.unparse(s.targets[0])
-                        arg = ast.unparse(s.value.args[0]) if s.value.args else None
-                        found[name] = (is_basic, tgt, arg, m.loc(s))
-    stored = {}
-    for n in ast.walk(f.node):
-        if isinstance(n, ast.Assign) and isinstance(n.targets[0], ast.Attribute) and ast.unparse(n.targets[0].value) == 'self':
-            stored[n.targets[0].attr] = ast.unparse(n.value)
-    for name in BASIC_FILTERS:
-        c = 'tzdb.transformer.Transformer.transform->%s' % name
-        R.instance('B', c, f.loc)
-        if name not in found:
-            R.violation('B', c, f.loc, 'basic-only filter %s is not applied inside an "if self.scope == \'basic\'" block' % name)
-            continue
-        is_basic, tgt, arg, loc = found[name]
-        want = 'zones_map' if 'zone' in name.split('_')[2] else 'rules_map'
-        if not is_basic:
-            R.violation('B', c, loc, 'filter is not guarded by self.scope == \'basic\'')
-        elif tgt != arg or tgt != want:
-            R.violation('B', c, loc, 'result is assigned to %s from %s; it must replace %s' % (tgt, arg, want))
-        elif stored.get(want) != want:
-            R.violation('B', c, loc, 'the filtered %s is not what transform() finally stores in self.%s' % (want, want))
-    # the until-time suffix filter restricts basic to 'w'
-    g = m.fn('Transformer._remove_zones_invalid_until_time_suffix')
-    R.instance('B', 'tzdb.transformer.Transformer._remove_zones_invalid_until_time_suffix', g.loc)
-    src = ast.unparse(g.node)
-    ok = False
-    for n in ast.walk(g.node):
-        if isinstance(n, ast.If) and "self.scope == 'basic'" in ast.unparse(n.test):
-            for s in n.body:
-                if isinstance(s, ast.Assign) and isinstance(s.value, ast.List):
-                    vals = [x.value for x in s.value.elts if isinstance(x, ast.Constant)]
-                    ok = vals == ['w']
-    if not ok:
-        R.violation('B', 'tzdb.transformer.Transformer._remove_zones_invalid_until_time_suffix', g.loc,
-                    "basic scope is not restricted to the UNTIL suffix ['w']")
+def feature_rules(cfg, R, lib):
+    """B, decided on what the compiler computes: the compiler is interpreted in basic scope (acv/pipeline.py) on a source with one
+    zone per feature the basic processor lacks, next to control zones; what it emits is rendered, parsed and put through the same
+    data rules A1-A4 as the shipped basic database.  A basic-only filter that is skipped, applied in the other scope only, or whose
+    result is dropped lets one of the feature zones through, and that zone fails its data rule."""
+    from . import pipeline
+    from .pyeval import Raised
+    R.rule('B', 'basic compilation of the feature source keeps the control zones', floor=len(pipeline.FEATURE_CONTROLS))
+    R.analysed['python_modules'] = [pipeline.EX, pipeline.TR, pipeline.CO]
+    loc = py.load(cfg, pipeline.TR).fn('Transformer.transform').loc
+    try:
+        s = pipeline.sweep(cfg, 'basic', text=pipeline.feature_text(), tag='features')
+    except Raised as r_:
+        R.instance('B', 'features:compile', loc)
+        R.violation('B', 'features:compile', loc, '%s' % r_.what)
+        return
+    emitted = set(s.T.zone_names()) if hasattr(s.T, 'zone_names') else set()
+    for z in pipeline.FEATURE_CONTROLS:
+        R.instance('B', 'features:%s' % z, loc)
+        if z not in s.tzdb['zones_map']:
+            why = (s.tzdb.get('removed_zones') or {}).get(z)
+            R.violation('B', 'features:%s' % z, loc, 'a zone that uses no feature outside the basic processor is not emitted in basic scope (%s)' % (why or 'no reason recorded'))
+    R.note('feature source: %d zones in, %d emitted in basic scope: %s' % (len(s.source['zones']), len(s.tzdb['zones_map']), sorted(s.tzdb['zones_map'])))
+    data_rules(cfg, R, lib, s.T, ids=('B1', 'B2', 'B3', 'B4'), floors=(len(pipeline.FEATURE_CONTROLS), 2, 4, 4), db='features',
+               what='feature source, basic scope: every emitted')
 
 
 # ---------------------------------------------------------------------------------------------------------
@@ -620,7 +590,7 @@ def run(cfg):
     R.analysed['translation_units'] = ['tu/lib.cpp', 'tu/tables_zonedb.cpp', 'tu/tables_zonedbx.cpp']
     data_rules(cfg, R, lib, B)
     five_slot_rule(cfg, R, lib, B, 'A5')
-    transformer_rules(cfg, R)
+    feature_rules(cfg, R, lib)
     subset_rules(cfg, R, B, X)
     return R
 
@@ -665,10 +635,24 @@ SELFTEST = [
          replace="            if rule['deltaSeconds'] == 0:\n                if rule_date < anchor_info['earliestDate']:\n                    anchor_info['earliestDate'] = rule_date\n                    anchor_info['rule'] = rule", expect='silent'),
     dict(id='basic-filter-unscoped', file='tools/tzdb/transformer.py',
          find="        if self.scope == 'basic':\n            rules_map = self._remove_rules_long_dst_letter(rules_map)",
-         replace="        if self.scope == 'extended':\n            rules_map = self._remove_rules_long_dst_letter(rules_map)", rule='B'),
+         replace="        if self.scope == 'extended':\n            rules_map = self._remove_rules_long_dst_letter(rules_map)", rule='B4'),
     dict(id='basic-filter-result-dropped', file='tools/tzdb/transformer.py',
          find="            rules_map = self._remove_rules_with_border_transitions(rules_map)",
-         replace="            self._remove_rules_with_border_transitions(rules_map)", rule='B'),
+         replace="            self._remove_rules_with_border_transitions(rules_map)", rule='B3'),
+    dict(id='until-filter-call-deleted', file='tools/tzdb/transformer.py',
+         find="        if self.scope == 'basic':\n            zones_map = self._remove_zone_until_year_only_false(zones_map)\n", replace='', rule='B1'),
+    dict(id='month-filter-counts-from-year-only', file='tools/tzdb/transformer.py',
+         find="                for year in range(from_year, to_year + 1):\n                    key = (name, year, month)",
+         replace="                for year in range(from_year, from_year + 1):\n                    key = (name, year, month)", rule='B2'),
+    dict(id='border-filter-ignores-weekday-form', file='tools/tzdb/transformer.py',
+         find="                    if month == 1 and on_day_of_month == 1:\n                        valid = False",
+         replace="                    if month == 1 and on_day_of_month == 1 and rule['onDayOfWeek'] == 0:\n                        valid = False", rule='B3'),
+    dict(id='letter-filter-allows-two', file='tools/tzdb/transformer.py', find="                if len(letter) > 1:\n                    valid = False",
+         replace="                if len(letter) > 2:\n                    valid = False", rule='B4'),
+    dict(id='basic-filters-through-a-table-silent', file='tools/tzdb/transformer.py',
+         find="        if self.scope == 'basic':\n            rules_map = self._remove_rules_with_border_transitions(rules_map)\n        if self.scope == 'basic':\n            rules_map = self._remove_rules_long_dst_letter(rules_map)\n",
+         replace="        for only_basic, step in ((True, self._remove_rules_with_border_transitions), (True, self._remove_rules_long_dst_letter)):\n            if only_basic and self.scope != 'basic':\n                continue\n            rules_map = step(rules_map)\n",
+         expect='silent'),
     dict(id='basic-era-line-differs', file='src/ace_time/zonedb/zone_infos.cpp', regex=True, unique=False, nth=0,
          find=r'//              0:00    -    GMT\n', replace='//              0:00    -    UTC\n', rule='C'),
 ]
